@@ -61,7 +61,13 @@ def strategy(tier):
         axes = draw(st.lists(st.sampled_from(gen.AXES_FOR_SCORES), min_size=2, max_size=3, unique=True))
         k = draw(st.integers(0, len(spec["inputs"]) - 1))
         delta = draw(st.sampled_from([-2.75, -1.0, 0.25, 1.0, 3.5]))
-        return {"spec": spec, "axes": axes, "alter": k, "delta": delta}
+        opts = {}
+        if draw(st.sampled_from([False, False, False, True])):
+            # -obsrange: cases whose observation lies outside the inclusive range are discarded for every input
+            vals = sorted(set(v for d in spec["inputs"] if d.get("obs") for pl in d["obs"] for row in pl for v in row if v is not None)) or [0.0]
+            a, b = draw(st.sampled_from(vals)), draw(st.sampled_from(vals))
+            opts["obs_range"] = [min(a, b), max(a, b)]
+        return {"spec": spec, "axes": axes, "alter": k, "delta": delta, "opts": opts}
     return s()
 
 
@@ -76,15 +82,18 @@ def check_api(case, ctx):
 
     spec = case["spec"]
     axes = case.get("axes") or ([case["axis"]] if case.get("axis") not in (None, "all") else ["no", "time", "leadtime", "location"])
-    ds = model.DS(spec)
+    opts = case.get("opts") or {}
+    ds = model.DS(spec, opts)
     n_in = len(spec["inputs"])
     ctx.label("inputs=%d" % n_in)
+    if opts.get("obs_range"):
+        ctx.label("obsrange")
     if spec.get("clim"):
         ctx.label("has_clim")
     if any(d.get("obs") is None for d in spec["inputs"]):
         ctx.label("obs_shared")
     try:
-        data = mat.make_data(spec)
+        data = mat.make_data(spec, opts)
     except SystemExit:
         if ds.empty:
             ctx.label("empty_intersection")
@@ -106,8 +115,9 @@ def check_api(case, ctx):
                                               "fcst": d.get("fcst")} for d in spec["inputs"]],
                     "clim": bool(spec.get("clim"))})
     menu = gen.common_menu(spec)
-    dscheck.check_slices(ctx, ID, spec, ds, data, menu, axes)
-    dscheck.check_all_axis(ctx, ID, spec, ds, menu[:6], lambda: mat.make_data(spec))
+    extra = {"opts": opts} if opts else {}
+    dscheck.check_slices(ctx, ID, spec, ds, data, menu, axes, extra=extra)
+    dscheck.check_all_axis(ctx, ID, spec, ds, menu[:6], lambda: mat.make_data(spec, opts), extra=extra)
     # independence: alter the non-missing forecast values of one input
     if n_in > 1:
         k = case.get("alter", 0) % n_in
@@ -117,8 +127,8 @@ def check_api(case, ctx):
         d["fcst"] = [[[None if v is None else v + case["delta"] for v in row] for row in pl] for pl in d["fcst"]]
         if d.get("ens") is not None:
             d["ens"] = [[[[None if v is None else v + case["delta"] for v in cell] for cell in row] for row in pl] for pl in d["ens"]]
-        data2 = mat.make_data(spec2)
-        data1 = mat.make_data(spec)
+        data2 = mat.make_data(spec2, opts)
+        data1 = mat.make_data(spec, opts)
         for F in menu:
             vF = [mat.vfield(f) for f in F]
             for axis in axes:
@@ -131,7 +141,7 @@ def check_api(case, ctx):
                         a2 = data2.get_scores(vF, j, vax, kk)
                         ctx.evals += 1
                         if any(not cmpx.arrays_equal(x, y) for x, y in zip(a1, a2)):
-                            ctx.fail("C01/independence/" + dscheck.fields_label(F), {"spec": spec, "alter": k, "delta": case["delta"], "fields": F, "input": j, "axis": axis, "slice": kk},
+                            ctx.fail("C01/independence/" + dscheck.fields_label(F), {"spec": spec, "opts": opts, "alter": k, "delta": case["delta"], "fields": F, "input": j, "axis": axis, "slice": kk},
                                      "changing the non-missing forecasts of input %d changed the values returned for input %d" % (k, j))
 
 
